@@ -74,7 +74,7 @@ class C01(Prop):
     }
 
     def budget(self, tier):
-        return dict(examples=500, shards=8) if tier == "quick" else dict(examples=30000, shards=16)
+        return dict(examples=800, shards=16) if tier == "quick" else dict(examples=30000, shards=16)
 
     def strategy(self, tier):
         return cases(tier)
